@@ -366,7 +366,15 @@ def gen_formulas(rng, ref, tbl, n, maxdepth):
                 f = mix_by_volume(*parts)
                 src = "mix_by_volume"
             else:
-                f = formula(rng.choice(base), name=rng.choice(["water", "salt", "my alloy", "x", "H2O", "(Fe)"]))
+                nm = rng.choice(["water", "salt", "my alloy", "x", "H2O", "(Fe)", "Mohr's salt", "Wood's metal",
+                                 "a\\b", 'the "good" one', "tab\there", "\u03b1-Fe", "it's \"both\"", "%s", "{0}"])
+                if rng.random() < 0.25:
+                    g = formula(rng.choice(base), density=rng.uniform(0.5, 20))
+                    f = mix_by_weight(formula(rng.choice(base), density=2.0), 1, g, rng.randint(1, 9), name=nm)
+                elif rng.random() < 0.2:
+                    f = formula(formula(rng.choice(base)), name=nm)
+                else:
+                    f = formula(rng.choice(base), name=nm)
                 src = "named"
         except (ZeroDivisionError, OverflowError):
             continue
